@@ -129,11 +129,11 @@ def conditions(tier):
                 ('unicode-xml', 'braces-after-macro', 'fail', 'br', '{?}')]
     else:
         wild = [(rs, sc, pol, tag, sk) for rs in ('defaults', 'unicode-xml') for pol in ('replace', 'ignore', 'fail', 'keep')
-                for sc in SCHEMES for tag, sk in ([('alone', '?')] + ([('a_r', '?a'), ('bs_l', '\\?'), ('br', '{?}'), ('sp', '? x'),
+                for sc in ('braces', 'braces-after-macro') for tag, sk in ([('alone', '?')] + ([('a_r', '?a'), ('bs_l', '\\?'), ('br', '{?}'), ('sp', '? x'),
                                                                          ('pc', '?%')] if pol != 'keep' else []))]
     for rs, sc, pol, tag, sk in wild:
         i = sk.index('?')
-        for lo, hi in parts(rs, 4 if quick else 8):
+        for lo, hi in parts(rs, 4):
             pre = ['len(t) == %d' % len(sk)] + ['t[%d] == chr(%d)' % (j, ord(ch)) for j, ch in enumerate(sk) if ch != '?'] + \
                 ['%d <= ord(t[%d]) < %d' % (lo, i, hi)]
             conds.append(Cond('wild_%s_%s_%s_%s_%x' % (rs.replace('-', ''), sc.replace('-', ''), pol, tag, lo), 't: str',
@@ -158,7 +158,7 @@ META = dict(
                       'tables x 5 protection schemes, length 3 for 2 table/scheme pairs; one wildcard character over all Unicode '
                       '(control, combining, astral, unassigned included), alone and next to pinned ASCII neighbours, both tables, '
                       'policies replace and fail; unihex on 5 code-point ranges',
-                thorough='length 3 for all 10 table/scheme pairs; wildcard under 4 policies x 5 schemes with 6 neighbour skeletons'),
+                thorough='length 3 for all 10 table/scheme pairs; wildcard under 4 policies x 2 schemes with 6 neighbour skeletons'),
     stubs=['unicodedata.normalize -> identity (claim on the NFC string)', 'BisectMap around both tables', 'logging disabled',
            'step budget on the parse of the output'],
     outside=['two wildcard characters next to each other', 'policy keep with a non-ASCII wildcard next to neighbours (the output '
